@@ -14,7 +14,7 @@ for ID in sys.argv[1:]:
             extra.append(line.strip())
     p = os.path.join(HERE, 'seeded', ID, 'meta.json')
     meta = json.load(open(p))
-    meta['breaks_property'] = ID
+    meta['breaks_property'] = ID.split('-')[0]
     caught = dict((k[6:], v) for k, v in res.items() if k.startswith('check_'))
     meta['confirmed_by_us'] = {
         'what_we_ran': 'tools/confirm_seed.sh %s: scratch worktree of /repo HEAD under /tmp/cf (removed afterwards); demo.py on the clean tree, git apply patch.diff, demo.py again, '
